@@ -119,6 +119,8 @@ func genC02Pair(t *rapid.T, col *collector, k1 bool) (c02Case, bool) {
 	c := c02Case{Cfg: CfgSpec{Dir: "snaps", Filename: "f"}, Test: genTestName(t), Color: rapid.Bool().Draw(t, "color")}
 	if rapid.IntRange(0, 3).Draw(t, "ext") == 0 {
 		c.Cfg.Ext = ".txt"
+	} else if rapid.IntRange(0, 3).Draw(t, "pkglevel") == 0 {
+		c.Cfg.Filename, c.Cfg.PkgLevel = "", true // package-level functions (ignored when an Update option is set)
 	}
 	c.Mode, c.UpdOpt = genReadOnlyMode(t)
 	api := rapid.SampledFrom([]string{"snap", "snap", "snap", "ssnap", "json", "sjson", "yaml"}).Draw(t, "api")
